@@ -1,0 +1,77 @@
+//go:build verif
+
+// Verification hooks for the traversal kernel (/verif, prefix VerifTrav): read-only access to the unexported state of the
+// taint Visitor (roots, recorded visitor-node tree, flows) and to the unexported node predicates used by Visit/addNext.
+// Add-only file; compiled only with -tags verif.
+
+package taint
+
+import (
+	"reflect"
+	"unsafe"
+
+	"github.com/awslabs/ar-go-tools/analysis/config"
+	df "github.com/awslabs/ar-go-tools/analysis/dataflow"
+	"golang.org/x/tools/go/ssa"
+)
+
+// VerifTravRoot returns the root visitor node recorded by Visit for the entry point source (nil if none).
+func VerifTravRoot(v *Visitor, source df.NodeWithTrace) *df.VisitorNode {
+	return v.roots[source]
+}
+
+// VerifTravFlows returns the flows accumulated by the visitor.
+func VerifTravFlows(v *Visitor) *Flows {
+	return v.taints
+}
+
+// VerifTravChildren returns the children recorded by cur.AddChild in addNext (unexported field of df.VisitorNode).
+func VerifTravChildren(n *df.VisitorNode) []*df.VisitorNode {
+	if n == nil {
+		return nil
+	}
+	f := reflect.ValueOf(n).Elem().FieldByName("children")
+	res := make([]*df.VisitorNode, 0, f.Len())
+	for i := 0; i < f.Len(); i++ {
+		res = append(res, (*df.VisitorNode)(unsafe.Pointer(f.Index(i).Pointer())))
+	}
+	return res
+}
+
+// VerifTravTracing is one element of the closure tracing stack of a visitor node status.
+type VerifTravTracing struct {
+	Index   int
+	Summary *df.SummaryGraph
+}
+
+// VerifTravTracingStack returns the stack of closure tracing infos of a status, innermost (current) first.
+func VerifTravTracingStack(st df.VisitorNodeStatus) []VerifTravTracing {
+	var res []VerifTravTracing
+	v := reflect.ValueOf(st).FieldByName("TracingInfo")
+	for !v.IsNil() {
+		e := v.Elem()
+		idx := int(e.FieldByName("Index").Int())
+		sum := (*df.SummaryGraph)(unsafe.Pointer(e.FieldByName("ClosureSummaryGraph").Pointer()))
+		res = append(res, VerifTravTracing{Index: idx, Summary: sum})
+		v = e.FieldByName("prev")
+	}
+	return res
+}
+
+// VerifTravIsSink is isSink.
+func VerifTravIsSink(s *df.AnalyzerState, ts *config.TaintSpec, n df.GraphNode) bool { return isSink(s, ts, n) }
+
+// VerifTravIsSanitizer is isSanitizer.
+func VerifTravIsSanitizer(s *df.AnalyzerState, ts *config.TaintSpec, n df.GraphNode) bool {
+	return isSanitizer(s, ts, n)
+}
+
+// VerifTravIsFiltered is isFiltered.
+func VerifTravIsFiltered(s *df.AnalyzerState, ts *config.TaintSpec, n df.GraphNode) bool {
+	return isFiltered(s, ts, n)
+}
+
+// VerifTravIsValidatorCondition is isValidatorCondition.
+func VerifTravIsValidatorCondition(ts *config.TaintSpec, v ssa.Value, isPositive bool) bool {
+	return isValidatorCondition(ts, v, isPositive)
+}
